@@ -272,20 +272,21 @@ impl Tree {
         }
     }
 
-    pub fn change_key(&self, target_key: &Key, updated_key: &Key) -> Tree {
+    /// `relative_to` is the directory of the note this tree belongs to
+    pub fn change_key(&self, target_key: &Key, updated_key: &Key, relative_to: &str) -> Tree {
         Tree {
             id: self.id,
             node: match &self.node {
                 Node::Section(inlines) => Node::Section(
                     inlines
                         .iter()
-                        .map(|inline| inline.change_key(target_key, updated_key))
+                        .map(|inline| inline.change_key(target_key, updated_key, relative_to))
                         .collect_vec(),
                 ),
                 Node::Leaf(inlines) => Node::Leaf(
                     inlines
                         .iter()
-                        .map(|inline| inline.change_key(target_key, updated_key))
+                        .map(|inline| inline.change_key(target_key, updated_key, relative_to))
                         .collect_vec(),
                 ),
                 Node::Reference(reference) => Node::Reference(Reference {
@@ -300,7 +301,7 @@ impl Tree {
                 _ => self.node.clone(),
             },
             children: self
-                .map_children(|child| child.change_key(target_key, updated_key))
+                .map_children(|child| child.change_key(target_key, updated_key, relative_to))
                 .children,
         }
     }
